@@ -4,6 +4,7 @@
 import GilVerif.Model.C13
 import GilVerif.Lemmas.Codec
 import GilVerif.Gen.C13
+import GilVerif.Props.C12
 
 namespace GilVerif.Props.C13
 open GilVerif.Codec GilVerif.Model.C13 GilVerif.Gen.C13
@@ -454,6 +455,31 @@ theorem C13_bmp_palette_convert_witness :
     bmpConvPixel 8 .gray8 [0xcb, 0xda, 0x11, 0] = [0xcb] ∧ colorConvert .rgba8 .gray8 [0xcb, 0xda, 0x11, 0] = [0] := by
   decide
 
+/-! ### end to end with C12: write a view, read ANY rectangle of the file = that rectangle of the view -/
+
+theorem C13_write_then_read_rect_bmp {α} (f : PixFmt α) (hf : f.Lawful) (hsz : f.size = 3 ∨ f.size = 4)
+    (img : Img α) (wf : img.WF) (hw : img.w * 4 + 3 < 2147483648) (hh1 : 1 ≤ img.h) (hh : img.h < 2147483648)
+    (s : Settings) (hin : s.Inside img.w img.h) :
+    decodeBmp f (encodeBmp f img) s = some (crop s img) :=
+  C13_crop_bmp f _ s img (GilVerif.Props.C12.C12_bmp_roundtrip f hf hsz img wf hw hh1 hh) hin
+
+theorem C13_write_then_read_rect_targa {α} (f : PixFmt α) (hf : f.Lawful) (hsz : f.size = 3 ∨ f.size = 4)
+    (img : Img α) (wf : img.WF) (hw1 : 1 ≤ img.w) (hw : img.w < 65536) (hh1 : 1 ≤ img.h) (hh : img.h < 65536)
+    (s : Settings) (hin : s.Inside img.w img.h) :
+    decodeTga f (encodeTga f img) s = some (crop s img) :=
+  C13_crop_targa f _ s img (GilVerif.Props.C12.C12_targa_roundtrip f hf hsz img wf hw1 hw hh1 hh) hin
+
+theorem C13_write_then_read_rect_pnm {α} (f : PixFmt α) (hf : f.Lawful) (t : Nat) (ht : (t = 5 ∧ f.size = 1) ∨ (t = 6 ∧ f.size = 3))
+    (img : Img α) (wf : img.WF) (hw : PnmIntOk img.w) (hh : PnmIntOk img.h) (s : Settings) (hin : s.Inside img.w img.h) :
+    decodePnm f t (encodePnm f t img) s = some (crop s img) :=
+  C13_crop_pnm f t _ s img (GilVerif.Props.C12.C12_pnm_roundtrip f hf t ht img wf hw hh) hin
+
+/-- pnm mono (P4) with the writer and reader now in /repo (fedfb71): any rectangle, at any bit offset -/
+theorem C13_write_then_read_rect_pnm_mono (img : Img Bool) (wf : img.WF) (hw : PnmIntOk img.w) (hh : PnmIntOk img.h)
+    (s : Settings) (hin : s.Inside img.w img.h) :
+    decodePnmMonoFixed (encodePnmMonoFixedExec img) s = some (crop s img) :=
+  C13_crop_pnm_mono pnmMonoRowDecFixed _ s img (GilVerif.Props.C12.C12_pnm_mono_roundtrip_proposed_fix_exec img wf hw hh) hin
+
 /-! ### the row offset, over the definition re-translated from bmp/detail/read.hpp on every run -/
 
 /-- reader::get_offset(pos) with its C arithmetic (int32 height, uint32 offset, size_t pitch, result narrowed to long) is
@@ -485,5 +511,57 @@ theorem C13_get_offset_model (info : BmpInfo) (pitch pos : Nat) (hh : info.heigh
   rw [hsub]
 
 example : bmp_get_offset 0 2 54 4 = 58 ∧ bmp_get_offset 1 2 54 4 = 54 := by decide
+
+/-! ### the row pitch: computed once in the writer (`spn`) and once in the reader (`_pitch`), both re-translated on every run -/
+
+private theorem mask_lit : ((-3 - 1 : Int) % 18446744073709551616).toNat = 18446744073709551612 := by decide
+
+private theorem round4 (p : Int) (h0 : 0 ≤ p) (h1 : p < 18446744073709551616) :
+    Int.ofNat (Nat.land (p % 18446744073709551616).toNat ((-3 - 1 : Int) % 18446744073709551616).toNat) = p / 4 * 4 := by
+  rw [mask_lit, Int.emod_eq_of_lt h0 h1, land_mask4 _ (by omega)]
+  simp only [Int.ofNat_eq_natCast]
+  omega
+
+/-- bmp writer: `( view.width() * num_channels + 3 ) & ~3` in size_t arithmetic = the row size rounded up to a multiple of 4 -/
+theorem C13_writer_spn (w nch : Int) (hw : 0 ≤ w) (hn : 0 ≤ nch) (hw63 : w < 9223372036854775808)
+    (hb : w * nch + 3 < 18446744073709551616) : bmp_writer_spn w nch = (w * nch + 3) / 4 * 4 := by
+  have hp : 0 ≤ w * nch := Int.mul_nonneg hw hn
+  unfold bmp_writer_spn
+  have e1 : w % 18446744073709551616 = w := Int.emod_eq_of_lt hw (by omega)
+  have e2 : (w * nch) % 18446744073709551616 = w * nch := Int.emod_eq_of_lt hp (by omega)
+  try simp only [e1, e2]
+  -- `& ~3` form, or an arithmetic rewrite of it (`/ 4 * 4`, …)
+  first
+  | exact round4 (w * nch + 3) (by omega) hb
+  | (generalize w * nch = p at *; omega)
+
+/-- bmp reader (bits per pixel ≥ 8): `_pitch = width * ((bpp + 7) >> 3)` then `(_pitch + 3) & ~3` -/
+theorem C13_reader_pitch (width bpp : Int) (hw : 0 ≤ width) (hbpp : 0 ≤ bpp)
+    (hb : width * ((bpp + 7) / 8) + 3 < 18446744073709551616) :
+    bmp_reader_pitch_round (bmp_reader_pitch_raw width bpp) = (width * ((bpp + 7) / 8) + 3) / 4 * 4 := by
+  have hp : 0 ≤ width * ((bpp + 7) / 8) := Int.mul_nonneg hw (by omega)
+  unfold bmp_reader_pitch_round bmp_reader_pitch_raw
+  have e1 : (width * ((bpp + 7) / 8)) % 18446744073709551616 = width * ((bpp + 7) / 8) := Int.emod_eq_of_lt hp (by omega)
+  try simp only [e1]
+  first
+  | exact round4 _ (by omega) hb
+  | (generalize width * ((bpp + 7) / 8) = p at *; omega)
+
+/-- the mechanism the property names first: the reader's pitch for a `nch`-channel 8-bit file IS the writer's row size -/
+theorem C13_pitch_mirrored (w nch : Int) (hw : 0 ≤ w) (hn : 0 ≤ nch) (hw63 : w < 9223372036854775808)
+    (hb : w * nch + 3 < 18446744073709551616) :
+    bmp_reader_pitch_round (bmp_reader_pitch_raw w (nch * 8)) = bmp_writer_spn w nch := by
+  have e : (nch * 8 + 7) / 8 = nch := by omega
+  rw [C13_writer_spn w nch hw hn hw63 hb, C13_reader_pitch w (nch * 8) hw (by omega) (by rw [e]; exact hb), e]
+
+/-- and the hand-written model uses exactly these -/
+theorem C13_pitch_model (w nch : Nat) (hw63 : (w : Int) < 9223372036854775808) (hb : (w : Int) * nch + 3 < 18446744073709551616) :
+    (bmpSpn w nch : Int) = bmp_writer_spn w nch := by
+  rw [C13_writer_spn w nch (by omega) (by omega) hw63 hb]
+  unfold bmpSpn
+  push_cast
+  rfl
+
+example : bmp_writer_spn 3 3 = 12 ∧ bmp_reader_pitch_round (bmp_reader_pitch_raw 3 24) = 12 := by decide
 
 end GilVerif.Props.C13
